@@ -142,3 +142,18 @@ META["C14"]["text"] += " TestC14Config gives locations 0-2 rewrite rules, some o
 META["C17"]["text"] += " A quarter of the applied configurations contain two locations sharing a name (accepted by the validation); every entry is probed."
 META["C19"]["text"] += " Every phase without a healthy server ends with three bursts of 32 concurrent GETs for one URL: each must get its 5xx within 12 s."
 META["C20"]["text"] += " 15% of the stress requests are HEAD."
+# round 10
+META["C01"]["text"] += " Fetch outcomes include an upstream body that breaks off (the handler panics while requests are coalesced behind the fetch)."
+META["C02"]["text"] += " TestC02Hammer (free-running goroutines on the cache package: lookup, Get, Age on a hit, store or hit-for-pass on a fetch, expiry, purges; oracle = progress) covers what happens between two lock operations of one entry, where the simulation has no schedule point."
+META["C02"]["note"] = (META["C02"].get("note") or "") + "; TestC02Hammer reports a stall when no lookup at all completes for 20 s (lookups take microseconds)"
+META["C04"]["text"] += " TestC04SlowWrite (real clock): a store write that outlasts the lifetime while requests queue on the entry; nobody may be served the response a whole second past its lifetime or with an Age beyond it. Requests coalesced behind such a fetch are excluded as the open finding waiter-answer-delayed-by-store-write (probe TestC04ProbeWaiterSlowWrite)."
+META["C05"]["text"] += " Six concurrent uncached requests with different bodies in the scenario's upstream encoding: each client gets its own body."
+META["C06"]["text"] += " The key pool contains the same path in several percent-encodings (%2F, %2f, %7E, %41 and their decoded twins)."
+META["C08"]["text"] += " TestC08Sim draws upstream Age values; the Age of one stored response must advance by the time that passed between any two hits on it (from the second second on), wherever the entry lived in between."
+META["C09"]["text"] += " TestC09StoreRestore: hit / hit-for-pass entries with timestamps relative to now (ages 0..10 years, 1 minute..2^40 s left) are written to a store and found by a new entry of the key: same state, same age, same answers."
+META["C10"]["text"] += " Half of the slow-write stores of TestC10Admin take 160 ms."
+META["C13"]["text"] += " TestC13Server sets the upstream's acceptEncoding option in half of the cases."
+META["C14"]["text"] += " TestC14Config hands the lookup a copy of the server's location list and requires it back unchanged."
+META["C15"]["text"] += " With a configured upstream Accept-Encoding (and no Range request in the case) the upstream answers gzip-encoded; the client must still receive the full resource."
+META["C17"]["text"] += " After the probes TestC17Apply applies the same accepted configuration three more times while four clients keep requesting every location: nothing may become unresolvable in between."
+META["C18"]["text"] += " A quarter of TestC18's scenarios run on the fault-injecting store (failing deletes only): a purge of all caches must not depend on the first cache's store."
